@@ -161,7 +161,8 @@ var tablePool = []string{"t", "t1", "t2", "users", "events", "db.t", "system.num
 var funcPool = []string{"count", "sum", "max", "min", "length", "toString", "toDate", "plus", "lower", "arrayMap", "if", "coalesce", "avg", "abs", "concat"}
 var typePool = []string{"UInt8", "UInt64", "Int32", "String", "Float64", "Date", "DateTime", "Nullable(String)", "Array(UInt8)",
 	"LowCardinality(String)", "Decimal(10, 2)", "FixedString(16)", "DateTime64(3)", "Map(String, UInt64)", "Tuple(UInt8, String)", "DateTime('UTC')",
-	"Enum8('a' = 1, 'b' = 2)", "Array(Nullable(Int64))", "UUID"}
+	"Enum8('a' = 1, 'b' = 2)", "Array(Nullable(Int64))", "UUID", "AggregateFunction(sumMapFiltered([1, 4, 8]), Array(UInt8), Array(UInt8))", "AggregateFunction(quantiles(0.5, 0.9), UInt64)",
+	"SimpleAggregateFunction(sum, UInt64)", "Tuple(`a b` UInt8, `имя` String)", "AggregateFunction(f((1, 2), [3, 4]), UInt8)", "Tuple(a UInt8, b Tuple(c String))"}
 
 func (g *Gen) ident() string { return pick(g.r, identPool) }
 
